@@ -25,8 +25,15 @@ def main():
             mod.replay(ctx, rec) if hasattr(mod, "replay") else print("replay: re-running the seed of the record")
             ctx.rng.seed(rec.get("seed", a.seed))
         mod.run(ctx)
-    except Exception:  # noqa: BLE001
-        ctx.framework_error("harness crashed: " + traceback.format_exc()[-1500:])
+    except Exception as e:  # noqa: BLE001
+        tb = traceback.extract_tb(e.__traceback__)
+        repo = os.path.realpath(os.environ.get("NPV_REPO", "/repo"))
+        if any(os.path.realpath(fr.filename).startswith(repo + os.sep) for fr in tb):
+            # the IMPLEMENTATION raised inside a call the harness makes to set a case up (calls that succeed on
+            # the tree the model follows): the correspondence can no longer be run — not a crash of the machinery
+            ctx.impl_crash(traceback.format_exc()[-2500:])
+        else:
+            ctx.framework_error("harness crashed: " + traceback.format_exc()[-1500:])
     code = ctx.finish(proof, level=getattr(mod, "LEVEL", "proof"), assumptions=getattr(mod, "ASSUMPTIONS", ()),
                       extra_cov=getattr(mod, "extra_cov", lambda c: None)(ctx))
     sys.exit(code)
